@@ -3,7 +3,7 @@
    inserted lines and bytes (Model/Shift.v).  Proved for the modelled queries; that the HCL parser maps
    the translated text to the translated tree is a hypothesis, validated by the harness on every pair. *)
 From Coq Require Import String List ZArith Bool.
-From HV Require Import Base.Pos Model.Schema Model.Ast Model.Merge Model.Validate Model.BodyQueries Model.Shift Proofs.ShiftProofs Proofs.ShiftSymbols Model.Links Proofs.ShiftLinks.
+From HV Require Import Base.Pos Model.Schema Model.Ast Model.Merge Model.Validate Model.BodyQueries Model.Shift Proofs.ShiftProofs Proofs.ShiftSymbols Model.Links Proofs.ShiftLinks Model.Hover Proofs.ShiftHover.
 
 (* the schema in force inside a block does not depend on where the block is *)
 Theorem C18_effective_schema_position_independent : forall file at_ dl db sc k,
@@ -36,3 +36,12 @@ Theorem C18_links_equivariant : forall file at_ dl db url bs b,
   links_in_body url bs (shift_body file at_ dl db b) = map (shift_link file at_ dl db) (links_in_body url bs b).
 Proof. exact links_in_body_equivariant. Qed.
 Print Assumptions C18_links_equivariant.
+
+(* the hover of the translated file at the moved cursor = the translated hover of the original at the cursor: same
+   content (or the same positional error), the range moved with the text - for attribute names, block types and labels
+   at any nesting depth (every range of the tree naming the edited file; inserting text never moves bytes backwards) *)
+Theorem C18_hover_equivariant : forall file at_ dl db, (0 <= db)%Z -> forall p b bs,
+  hover_in_file file b ->
+  hover_body (shift_pos at_ dl db p) (shift_body file at_ dl db b) bs = shift_outcome file at_ dl db (hover_body p b bs).
+Proof. exact hover_body_equivariant. Qed.
+Print Assumptions C18_hover_equivariant.
